@@ -175,6 +175,8 @@ impl Decoder for Codec {
                 }
                 DecodeState::PublishHeader(fixed) => {
                     if let Some(len) = Publish::packet_header_size(src, fixed.first_byte)? {
+                        // variable header cannot be longer than the frame
+                        ensure!(len <= fixed.remaining_length, DecodeError::InvalidLength);
                         self.state.set(DecodeState::PublishProperties(len, fixed));
                     } else {
                         return Ok(None);
